@@ -340,6 +340,14 @@ def run(ctx):
             check_compact(ctx, "ECDH-ES+A128KW", "A128CBC-HS256", "DEF", b"curve " + kid.encode(), 40, {"apu": "QWxpY2U", "apv": "Qm9i"})
         finally:
             E.default_key_for = old
+    # PartyUInfo / PartyVInfo that are binary identifiers: their base64url text uses "-" and "_" (RFC 7518 section 4.6.1.2),
+    # one, two, three or only such characters; the key agreed on is the independent implementation's
+    import base64 as _b64
+    for raw_u, raw_v in ((b"\xfb\xff\xbe", b"Bob"), (b"\xff\xff\xff\xfb\xef\xbe", b"\xfa"), (b"Alice", b"\xfb\xf0"), (bytes(range(240, 256)), bytes(range(250, 256)) + b"\x3e\x3f"),
+                         (b"\xf8", b"\xfc\x00")):
+        au, av = (_b64.urlsafe_b64encode(x).rstrip(b"=").decode() for x in (raw_u, raw_v))
+        check_compact(ctx, "ECDH-ES", "A128GCM", None, b"party info " + au.encode(), 12, {"apu": au, "apv": av})
+        check_compact(ctx, "ECDH-ES+A256KW", "A128CBC-HS256", None, b"party info " + av.encode(), 12, {"apu": au, "apv": av})
     for alg, enc in (("A128KW", "A128CBC-HS256"), ("RSA-OAEP", "A256GCM"), ("A256GCMKW", "A192CBC-HS384"), ("ECDH-ES+A256KW", "A128GCM"), ("dir", "A128GCM"),
                      ("ECDH-ES", "A128GCM")):
         for n in (1, 2, 3):
